@@ -15,16 +15,17 @@ theorem W_one : IAm.W 1 = 1 := by decide
 /-- Condition code followed by `BRZ L`: control is at `L` if the value is zero, behind the branch
     otherwise. -/
 theorem exec_cond_brz (K : PCtx) (wf : K.WF) (C : AExpr) (w : Word) (σ : X.St) (hC : ExecA K C w σ)
-    (gs : GS) (cc : Code) (gs1 : GS) (i : Nat) (a b : Word) (mem : Mem) (io : Isa.IOSt) (L : String) (jL : Nat) (kL : LabelKind)
+    (gs : GS) (cc : Code) (gs1 : GS) (i : Nat) (a b : Word) (mem : Mem) (io : Isa.IOSt) (hio : σ.io = io) (L : String) (jL : Nat) (kL : LabelKind)
     (hg : genExpr K.ctx C .A gs = .ok (cc, gs1)) (hat : At K.env.ds i (K.low cc))
     (hbr : K.env.ds[i + (K.low cc).length]? = some (.ref 0xA L true))
     (hlbl : K.env.ds[jL]? = some (.label kL L)) (hr : Rep K σ mem)
     (hsz : gs1.size ≤ K.S) (hnl : K.nlocals ≤ gs.offset) (hci : ConstsIn K gs1) :
     ∃ b1 mem1, Steps K.env (cfg i a b mem) io (cfg (if w = 0 then jL else i + (K.low cc).length + 1) w b1 mem1) io ∧
       Rep K σ mem1 := by
-  obtain ⟨b1, mem1, st, rep, _⟩ := hC gs cc gs1 i a b mem io hg hat hr hsz hnl hci
+  subst hio
+  obtain ⟨b1, mem1, st, rep, _⟩ := hC gs cc gs1 i a b mem hg hat hr hsz hnl hci
   have lL := labelIdx_of_nodup _ _ _ _ wf.nodup hlbl
-  have s0 := Step.brz (env := K.env) (cfg (i + (K.low cc).length) w b1 mem1) io L jL hbr lL
+  have s0 := Step.brz (env := K.env) (cfg (i + (K.low cc).length) w b1 mem1) σ.io L jL hbr lL
   exact ⟨b1, mem1, st.trans (Steps.one s0), rep⟩
 
 theorem low_dirs (K : PCtx) : ∀ (ds : List Dir), K.low (ds.map IDir.dir) = ds := by
@@ -145,7 +146,8 @@ theorem execS_ret (fuel : Nat) (e : X.Expr) (σ : X.St) (hp : pureE e = true) :
         subst hcode
         simp only [low_append] at hat ⊢
         have hA := expr_pure_correct K wf.toWF f e st w s hp hev'
-        obtain ⟨b', mem', st1, rep, _⟩ := hA gs c gs' i a b mem σ.io h1 hat.left (hr.same hs) hsz hnl hci
+        obtain ⟨b', mem', st1, rep, _⟩ := hA gs c gs' i a b mem h1 hat.left (hr.same hs) hsz hnl hci
+        rw [hs.2.2.2.1] at st1
         obtain ⟨k, hk⟩ := wf.exit_lbl
         have hbr : K.low [lBR K.ctx.exitLabel] = [.ref 0x9 K.ctx.exitLabel true] := rfl
         rw [hbr] at hat
@@ -177,7 +179,8 @@ theorem execS_assign (fuel : Nat) (n : String) (e : X.Expr) (σ : X.St) (hp : pu
         subst hcode
         simp only [low_append] at hat ⊢
         have hA := expr_pure_correct K wf.toWF f e st w s hp hev
-        obtain ⟨b', mem', st1, rep, _⟩ := hA gs c gs' i a b mem σ.io h1 hat.left (hr.same hs) hsz hnl hci
+        obtain ⟨b', mem', st1, rep, _⟩ := hA gs c gs' i a b mem h1 hat.left (hr.same hs) hsz hnl hci
+        rw [hs.2.2.2.1] at st1
         have rep1 := rep.same hs2
         -- the location of the assigned variable
         have hρ : K.ρ n = none := by
@@ -268,7 +271,7 @@ theorem execS_ite (fuel : Nat) (c : X.Expr) (t e : X.Stmt) (σ : X.St) (hpc : pu
         rw [hb, hl] at hat ⊢
         have hlab := hat.right.right.right.head
         simp only [List.length_cons, List.length_nil] at hlab
-        obtain ⟨b1, mem1, st1, rep1⟩ := exec_cond_brz K wf.toWF _ w st hC _ cc gs1 i a b mem σ.io _ _ _ h1
+        obtain ⟨b1, mem1, st1, rep1⟩ := exec_cond_brz K wf.toWF _ w st hC _ cc gs1 i a b mem σ.io hs.2.2.2.1 _ _ _ h1
           hat.left hat.right.head hlab hrst (by have := e2.2.1; omega) hnl (hci.of_eff e2)
         have rep1s := rep1.same hs2
         simp only [List.length_append, List.length_cons, List.length_nil]
@@ -310,7 +313,7 @@ theorem execS_ite (fuel : Nat) (c : X.Expr) (t e : X.Stmt) (σ : X.St) (hpc : pu
         have helse := hat.right.left.get 2 _ rfl
         have hend := hat.right.right.right.head
         simp only [List.length_cons, List.length_nil, Nat.add_zero] at hbrz hbr helse hend
-        obtain ⟨b1, mem1, st1, rep1⟩ := exec_cond_brz K wf.toWF _ w st hC _ cc gs1 i a b mem σ.io _ _ _ h1
+        obtain ⟨b1, mem1, st1, rep1⟩ := exec_cond_brz K wf.toWF _ w st hC _ cc gs1 i a b mem σ.io hs.2.2.2.1 _ _ _ h1
           hat.left hbrz helse hrst (by have := e2.2.1; omega) hnl (hci.of_eff e2)
         have rep1s := rep1.same hs2
         simp only [List.length_append, List.length_cons, List.length_nil]
@@ -356,7 +359,7 @@ theorem execS_ite (fuel : Nat) (c : X.Expr) (t e : X.Stmt) (σ : X.St) (hpc : pu
         have helse := hat.right.right.right.left.get 1 _ rfl
         have hend := hat.right.right.right.right.right.head
         simp only [List.length_cons, List.length_nil, Nat.add_zero] at hbr helse hend
-        obtain ⟨b1, mem1, st1, rep1⟩ := exec_cond_brz K wf.toWF _ w st hC _ cc gs1 i a b mem σ.io _ _ _ h1
+        obtain ⟨b1, mem1, st1, rep1⟩ := exec_cond_brz K wf.toWF _ w st hC _ cc gs1 i a b mem σ.io hs.2.2.2.1 _ _ _ h1
           hat.left hbrz helse hrst (by have := e2.2.1; have := e3.2.1; omega) hnl ((hci.of_eff e3).of_eff e2)
         have rep1s := rep1.same hs2
         have e1 := genExpr_eff _ _ _ _ _ _ h1
@@ -437,7 +440,7 @@ theorem execS_while (fuel : Nat) (c : X.Expr) (body : X.Stmt) (σ : X.St) (hpc :
       have hlen : (K.low code).length = 1 + ((K.low cc).length + (1 + ((K.low cb).length + 2))) := by
         rw [hcode]; simp only [low_append, List.append_assoc, hlb, hbz, hbe, List.length_append, List.length_cons, List.length_nil]
       have sBegin := step_label K _ _ _ hbegin a b mem σ.io
-      obtain ⟨b1, mem1, st1, rep1⟩ := exec_cond_brz K wf.toWF _ w st hC _ cc gs1 (i + 1) a b mem σ.io _ _ _ h1
+      obtain ⟨b1, mem1, st1, rep1⟩ := exec_cond_brz K wf.toWF _ w st hC _ cc gs1 (i + 1) a b mem σ.io hs.2.2.2.1 _ _ _ h1
         (by simpa using hat.right.left) (by simpa using hbrz) hend hrst (by have := e2.2.1; omega) hnl (hci.of_eff e2)
       have rep1s := rep1.same hs2
       by_cases hw0 : (w == 0) = true
